@@ -160,6 +160,22 @@ def run_log(ctx, spec):
             ctx.count('internal_errors_handled_by_parser', internal)
             ctx.setadd('show:internal_error_kinds', [p.strip().split('\n')[-1][:80] for k, p in s.events if k == 'out' and 'Traceback' in p][0])
         ctx.count('log_inputs')
+        if n % 3 == 0:
+            # the unmutated seed (well-formed simulator output + a slice of a real log) in the same process: here the reader's
+            # last-resort handler (traceback, decoding abandoned for the rest of the log) has nothing to excuse it
+            s = Session(show_unprocessed=not sup)
+            try:
+                s.feed([l + '\n' for l in base])
+            except BaseException as e:
+                ctx.violation('log-exception', '%s: %r escaped the log pipeline on a well-formed log' % (type(e).__name__, e), {'log_lines': base, 'supress': sup})
+                continue
+            tb = [p for k, p in s.events if k == 'out' and 'Traceback (most recent call last)' in p]
+            opened, closed = check_closed(s.events)
+            ctx.count('wellformed_logs')
+            if tb or not opened or sorted(opened) != sorted(closed):
+                ctx.violation('wellformed-log-abandoned', 'a well-formed log (session %d of this process): %s' % (
+                    n + 1, ('decoding abandoned after ' + tb[0].strip().split('\n')[-1][:160]) if tb else 'opened %r, closed %r' % (opened, closed)),
+                    {'log_lines': base, 'supress': sup, 'session_no': n + 1})
         if n == 0:
             ctx.sample({'log_head': lines[:4]})
     if spec.get('shard') == 0:
@@ -389,6 +405,11 @@ def replay(ctx, case):
     elif 'log_lines' in case:
         lines = case['log_lines']
         ctx.ev()
+        if case.get('session_no', 1) > 1:
+            # the witness was not the first log of its process: load the same log once before
+            s = Session(show_unprocessed=not case.get('supress'))
+            s.feed([l + '\n' for l in lines])
+            print('(an earlier session of the same process loaded the log first)')
         try:
             s = Session(show_unprocessed=not case.get('supress'))
             s.feed([l + '\n' for l in lines[:-1]] + ([lines[-1]] if lines else []))
@@ -397,6 +418,9 @@ def replay(ctx, case):
             return
         opened, closed = check_closed(s.events)
         print('opened', opened, 'closed', closed)
+        tb = [p for k, p in s.events if k == 'out' and 'Traceback (most recent call last)' in p]
+        if 'session_no' in case and (tb or not opened):
+            ctx.violation('wellformed-log-abandoned', 'decoding abandoned: %s' % (tb[0].strip().split('\n')[-1][:160] if tb else 'no connection opened'), case)
         if sorted(opened) != sorted(closed):
             ctx.violation('connection-not-closed', 'opened %r, closed %r' % (opened, closed), case)
     elif 'matcher' in case:
